@@ -34,6 +34,7 @@ type bsInput struct {
 type bsFlags struct {
 	table, row, col, ignore, filter string
 	alpha, confidence               float64
+	literal                         bool // the five strings are the flag values as given (no defaults filled in for "")
 }
 
 func (f bsFlags) args() []string {
@@ -278,7 +279,7 @@ func runBenchstatInProc(dir string, in bsInput, fl bsFlags) (res *bsRun) {
 	res = &bsRun{tid: map[benchproc.Key]int{}, rid: map[benchproc.Key]int{}, cid: map[benchproc.Key]int{},
 		re: map[benchproc.Key]int{}, groups: map[[3]int][]float64{}}
 	def := func(s, d string) string {
-		if s == "" {
+		if s == "" && !fl.literal {
 			return d
 		}
 		return s
@@ -576,7 +577,7 @@ func runBinary(exe, dir string, in bsInput, format string, env []string) (string
 }
 
 func genC14(o *hx.Out, r *hx.Rng, tier string, replay string) error {
-	o.Rule = "generated benchstat inputs: 1-3 files (labelled / duplicate paths), 1-3 configuration blocks, 1-5 benchmarks with sub-name keys and GOMAXPROCS, 1-3 units with and without Unit metadata, 1-14 samples, missing cells, x flag grid (-table/-row/-col/-ignore/-filter/-alpha/-confidence); run through cmd/benchstat's pipeline in process (observing benchtab.Tables) and through the real binary (csv and text). non-trivial = at least two cells; distinct by file contents+flags"
+	o.Rule = "generated benchstat inputs: 1-3 files (labelled / duplicate paths), 1-3 configuration blocks, 1-5 benchmarks with sub-name keys and GOMAXPROCS, 1-3 units with and without Unit metadata, 1-14 samples, missing cells, x flag grid (-table/-row/-col/-ignore/-filter/-alpha/-confidence); run through cmd/benchstat's pipeline in process (observing benchtab.Tables) and through the real binary (csv and text). non-trivial = at least two cells; distinct by file contents+flags. SECOND KIND (tag 7, c14p.go): flag strings + file texts only (1-3 files, config keys changing/deleted between results, units needing Tidy, /key=value names with -N, repeated and interleaved benchmarks, malformed lines, CR, unterminated last line, one over-long line) x grid of -filter/-table/-row/-col/-ignore values incl. bad flags; observed: the real binary (csv parsed back, stderr) and benchtab.Tables in process; the composed model recomputes everything from texts and flags"
 	exe, err := buildBenchstat(false)
 	if err != nil {
 		return err
@@ -624,5 +625,6 @@ func genC14(o *hx.Out, r *hx.Rng, tier string, replay string) error {
 		key := fmt.Sprint(in)
 		o.Add(c14Case(run, csvAgree, textAgree), in, key, ncells >= 2)
 	}
-	return nil
+	// second kind of case: flag strings + file texts against the composed model (c14p.go)
+	return genC14Pipeline(o, r, tier, exe)
 }
